@@ -20,6 +20,30 @@ class MuckMonitor:
     def __init__(self, prop='C12'):
         self.prop = prop
 
+    # what the log says (cards dealt to whom, who folded / was killed / mucked / showed, the chips) is part of the explored
+    # state: the verdict is computed from it, so histories whose engine fields coincide but whose logs differ are kept apart
+    @staticmethod
+    def _digest(st):
+        who = []
+        for o in st.operations:
+            nm = type(o).__name__
+            if nm in ('HoleDealing', 'StandingPatOrDiscarding'):
+                who.append((nm[0], o.player_index, tuple(repr(c) for c in o.cards)))
+            elif nm in ('Folding', 'HandKilling'):
+                who.append((nm[0], o.player_index))
+            elif nm == 'HoleCardsShowingOrMucking':
+                who.append(('S', o.player_index, bool(o.hole_cards)))
+        return (tuple(sorted(who)),) + c02.PotsMonitor._digest(st)
+
+    def init(self, st, ctx):
+        return self._digest(st)
+
+    def key(self, ms):
+        return ms
+
+    def on_edge(self, pre, ms, ev, post, rec, ctx):
+        return self._digest(post)
+
     def on_state(self, st, ms, menu, ctx):
         # tournament mode: at an all-in or final-street showdown a partial show must be refused
         if st.street is not None and st.showdown_indices and st.mode.value == 'Tournament':
